@@ -87,7 +87,7 @@ PROPS["C03"] = dict(
          "input kind); non-trivial = 0 < r < min(m,n) or gapped profile",
     assumptions=MODEL + ["PLE storage is read the way mzd_echelonize_pluq reads it (row i: columns <= i cleared, column Q[i] set); stored diagonals are not read"],
     stages=FUNC("ple", (9600, 300), (120000, 1100), (2400, 400), (30000, 1500), (2400, 250), (30000, 800)),
-    require_tags={"quick": ["ple_recursive", "ple_beyond_splitblock"], "thorough": ["ple_recursive", "ple_beyond_splitblock"]},
+    require_tags={"quick": ["ple_recursive", "ple_beyond_splitblock", "ple_tall_thin"], "thorough": ["ple_recursive", "ple_beyond_splitblock", "ple_tall_thin"]},
 )
 PROPS["C04"] = dict(
     level="exploration",
